@@ -10,8 +10,9 @@ US = ["Type_Scan.0:40", "Type_Scan.1:40", "strcmp.0:26", "streq.0:26", "raw_scan
 NCH = 8
 OBLIGATIONS = [
     Ob("matrix.chunk%d" % c, "C08/builtin_matrix.c", defs=["CHUNK=%d" % c, "NCHUNK=%d" % NCH], unwind=80, unwindset=US, checks=["bounds", "pointer"],
-       tiers=("probe",), timeout=600, gen=gen_type_tables, object_bits=16, desc="cold/warm/reordered lookups vs raw scan, built-in types %d mod %d x all classes" % (c, NCH))
+       tiers=("quick", "thorough"), timeout=900, gen=gen_type_tables, object_bits=16, desc="cold/warm/reordered lookups vs raw scan, built-in types %d mod %d x all classes" % (c, NCH))
     for c in range(NCH)
 ]
-LEVEL_TEXT = "x"
-LEVEL_NOTE = "x"
+LEVEL_TEXT = ("Symbolic execution of the real dispatcher for EVERY (built-in type, class) pair declared in the current Cello.h (tables regenerated per run): cold, warm and "
+              "re-ordered lookups against an independent raw scan of the type record; run-time types and error paths in separate obligations.")
+LEVEL_NOTE = "Trusted: cbmc; the raw-scan oracle relies on the record layout written by the Cello() macro. Concurrent first lookups are not explored (C13)."
